@@ -813,6 +813,8 @@ pub struct Ctl {
     pub mail: Vec<(usize, usize, char, Hnd)>,
     /// JSON description of the arguments of the call in progress, per thread
     pub cur_args: Vec<String>,
+    /// name and arguments of the call started by the line being recorded
+    pub started: Option<(&'static str, String)>,
 }
 
 pub fn spawn_workers(n: usize) -> Vec<Worker<Op, Res>> {
@@ -855,6 +857,7 @@ impl Ctl {
             last_res: Res::default(),
             mail: Vec::new(),
             cur_args: vec![String::new(); nthreads],
+            started: None,
         }
     }
 
@@ -911,6 +914,7 @@ impl Ctl {
         self.sh[t].cur = Some(op.clone());
         self.sh[t].nops += 1;
         self.ws[t].start(op.clone());
+        self.started = Some((op.name(), self.cur_args[t].clone()));
         self.after(t, "start", &format!("{:?}", op));
     }
     /// Grants one step to `t`.
@@ -1246,6 +1250,9 @@ impl Ctl {
             what,
             if t == usize::MAX { 0 } else { self.ws[t].at.unwrap_or(0) },
         );
+        if let Some((n, a)) = self.started.take() {
+            let _ = write!(head, ",\"opn\":\"{}\",\"args\":{{{}}}", n, a);
+        }
         let has_ret = ret.is_some();
         if let Some(r) = ret {
             let _ = write!(head, ",\"ret\":{{{}}}", r);
@@ -1261,8 +1268,9 @@ impl Ctl {
             }
             let _ = write!(
                 s,
-                "{{\"pin\":{},\"lep\":{},\"gc\":{},\"col\":{},\"busy\":{},\"user\":{}}}",
-                li.pinned, li.epoch, li.guard_count, li.collecting, w.busy, self.sh[i].pinned
+                "{{\"pin\":{},\"lep\":{},\"gc\":{},\"col\":{},\"busy\":{},\"user\":{},\"site\":{},\"op\":\"{}\"}}",
+                li.pinned, li.epoch, li.guard_count, li.collecting, w.busy, self.sh[i].pinned, w.at.unwrap_or(0),
+                self.sh[i].cur.as_ref().map(|o| o.name()).unwrap_or("")
             );
         }
         s.push_str("],\"obj\":[");
